@@ -607,7 +607,9 @@ def compute_mro(cls:'Class') -> Sequence[Union['Class', str]]:
                     except LookupError:
                         resolved_base = None
                     if not isinstance(resolved_base, Class) or resolved_base is o:
-                        resolved_base = o.parent.resolveName(str_base)
+                        # (in the scope the class statement is written in, see Class._localNameToFullName)
+                        scope = o.definingMod if o.definingMod is not None else o.parent
+                        resolved_base = scope.resolveName(str_base)
                     if isinstance(resolved_base, Class) and resolved_base is not o:
                         base = resolved_base
                         finalbaseobjects.append(base)
@@ -834,7 +836,10 @@ class Class(CanContainImportsDocumentable):
         elif name in self._localNameToFullName_map:
             return self._localNameToFullName_map[name]
         else:
-            return self.parent._localNameToFullName(name)
+            # The scope the class statement is written in: for a class that 
+            # a re-export has moved, the module it was defined in.
+            scope = self.definingMod if self.definingMod is not None else self.parent
+            return scope._localNameToFullName(name)
 
     @property
     def constructor_params(self) -> Mapping[str, Optional[ast.expr]]:
@@ -867,7 +872,9 @@ class Inheritable(Documentable):
                 yield b.contents[self.name]
 
     def _localNameToFullName(self, name: str) -> str:
-        return self.parent._localNameToFullName(name)
+        # (for a function or variable that a re-export has moved: the module it was defined in)
+        scope = self.definingMod if self.definingMod is not None else self.parent
+        return scope._localNameToFullName(name)
     
     def isNameDefined(self, name: str) -> bool:
         return self.parent.isNameDefined(name)
